@@ -43,15 +43,34 @@ type Write struct {
 	Val []byte
 }
 
-// LogDS is a MapDatastore that logs Put/Delete and returns query results in key order.
+// IDMap numbers the pin ids (random uuids) in creation order: 1, 2, …
+type IDMap struct{ m map[string]int }
+
+func NewIDMap() *IDMap { return &IDMap{m: map[string]int{}} }
+
+func (im *IDMap) note(id string) {
+	if _, ok := im.m[id]; !ok {
+		im.m[id] = len(im.m) + 1
+	}
+}
+
+// LogDS is a MapDatastore that logs Put/Delete and returns query results in a fixed order
+// (go-datastore leaves the order of unordered queries unspecified): by key, like leveldb/pebble,
+// except that keys whose last component is a pin id (records, index entries) are ordered among
+// their siblings by the creation order of that id instead of by the random uuid, so that the
+// order in which the pinner meets several pins of one CID is reproducible.
 type LogDS struct {
 	*ds.MapDatastore
 	Log []Write
+	IDs *IDMap
 }
 
-func NewLogDS() *LogDS { return &LogDS{MapDatastore: ds.NewMapDatastore()} }
+func NewLogDS(ids *IDMap) *LogDS { return &LogDS{MapDatastore: ds.NewMapDatastore(), IDs: ids} }
 
 func (d *LogDS) Put(ctx context.Context, k ds.Key, v []byte) error {
+	if ks := k.String(); strings.HasPrefix(ks, "/pins/pin/") {
+		d.IDs.note(path.Base(ks))
+	}
 	d.Log = append(d.Log, Write{Key: k.String(), Val: append([]byte(nil), v...)})
 	return d.MapDatastore.Put(ctx, k, v)
 }
@@ -61,9 +80,35 @@ func (d *LogDS) Delete(ctx context.Context, k ds.Key) error {
 	return d.MapDatastore.Delete(ctx, k)
 }
 
+// idRank: creation ordinal of the pin id in the last key component (0 when it is not a known id)
+func (d *LogDS) idRank(key string) int {
+	last := path.Base(key)
+	if strings.HasPrefix(key, "/pins/index/") {
+		if _, b, err := multibase.Decode(last); err == nil {
+			last = string(b)
+		}
+	}
+	return d.IDs.m[last]
+}
+
+func (d *LogDS) cmp(a, b query.Entry) int {
+	pa, pb := path.Dir(a.Key), path.Dir(b.Key)
+	if pa != pb {
+		return strings.Compare(pa, pb)
+	}
+	ra, rb := d.idRank(a.Key), d.idRank(b.Key)
+	if ra != 0 && rb != 0 && ra != rb {
+		if ra < rb {
+			return -1
+		}
+		return 1
+	}
+	return strings.Compare(a.Key, b.Key)
+}
+
 func (d *LogDS) Query(ctx context.Context, q query.Query) (query.Results, error) {
 	if len(q.Orders) == 0 {
-		q.Orders = []query.Order{query.OrderByKey{}}
+		q.Orders = []query.Order{query.OrderByFunction(d.cmp)}
 	}
 	return d.MapDatastore.Query(ctx, q)
 }
@@ -86,8 +131,8 @@ func (d *LogDS) Snapshot() map[string][]byte {
 }
 
 // FromSnapshot builds a store holding snap plus the given writes applied in order.
-func FromSnapshot(snap map[string][]byte, ws []Write) *LogDS {
-	d := NewLogDS()
+func FromSnapshot(snap map[string][]byte, ws []Write, ids *IDMap) *LogDS {
+	d := NewLogDS(ids)
 	ctx := context.Background()
 	for k, v := range snap {
 		d.MapDatastore.Put(ctx, ds.NewKey(k), v)
@@ -146,7 +191,7 @@ type World struct {
 	Store *LogDS
 	P     ipfspin.Pinner
 
-	ids map[string]int // real pin id -> creation ordinal (1,2,…)
+	IDs *IDMap // real pin id -> creation ordinal (1,2,…)
 
 	// spec-level pin model used by the monitor (cid index -> name number)
 	SpecR, SpecD map[int]int
@@ -222,7 +267,7 @@ func SortKey(c cid.Cid) string { return encKey(c.KeyString()) }
 func NewWorld(dagLine string) *World {
 	links, salt, present := ParseDag(dagLine)
 	w := &World{N: len(links), Links: links, Salt: salt, Present: present, Idx: map[string]int{},
-		ids: map[string]int{}, SpecR: map[int]int{}, SpecD: map[int]int{}}
+		IDs: NewIDMap(), SpecR: map[int]int{}, SpecD: map[int]int{}}
 	w.Nodes = BuildNodes(links, salt)
 	for i, nd := range w.Nodes {
 		w.Cids = append(w.Cids, nd.Cid())
@@ -242,7 +287,7 @@ func NewWorld(dagLine string) *World {
 			}
 		}
 	}
-	w.Store = NewLogDS()
+	w.Store = NewLogDS(w.IDs)
 	w.Open(w.Store)
 	return w
 }
@@ -261,19 +306,7 @@ func (w *World) Open(st *LogDS) []Write {
 	w.P = p
 	ws := st.Log
 	st.Log = nil
-	w.noteIDs(ws)
 	return ws
-}
-
-func (w *World) noteIDs(ws []Write) {
-	for _, x := range ws {
-		if !x.Del && strings.HasPrefix(x.Key, "/pins/pin/") {
-			id := path.Base(x.Key)
-			if _, ok := w.ids[id]; !ok {
-				w.ids[id] = len(w.ids) + 1
-			}
-		}
-	}
 }
 
 func nameStr(n int) string {
@@ -356,8 +389,67 @@ func (w *World) Mutate(f []string) (string, []Write) {
 	}
 	ws := w.Store.Log
 	w.Store.Log = nil
-	w.noteIDs(ws)
 	return ErrTok(err), ws
+}
+
+// ExpectOK tells, from the pin model alone, whether the call must succeed (want) — when the model
+// determines it (known); the outcome of Update's DiffEnumerate is left open.
+func (w *World) ExpectOK(f []string) (want bool, known bool) {
+	at := func(i int) int { v, _ := strconv.Atoi(f[i]); return v }
+	ctx := f[len(f)-1]
+	_, isR := w.SpecR[at(1)]
+	_, isD := w.SpecD[at(1)]
+	switch f[0] {
+	case "pin", "pinmode":
+		rec, dir := at(2) == 1, at(2) == 0
+		if f[0] == "pinmode" {
+			rec, dir = at(2) == 0, at(2) == 1
+			if !rec && !dir {
+				return false, true
+			}
+		}
+		if ctx == "pre" {
+			return false, true
+		}
+		if dir {
+			return !isR, true
+		}
+		if f[0] == "pinmode" {
+			return true, true
+		}
+		if ctx == "mid" {
+			return false, true
+		}
+		// Pin(recursive): succeeds iff every block below the root is (now) in the block store
+		seen := map[int]bool{}
+		w.reachStar(at(1), seen)
+		for i := range seen {
+			if !w.Present[i] && i != at(1) {
+				return false, true
+			}
+		}
+		return true, true
+	case "unpin":
+		if ctx == "pre" {
+			return false, true
+		}
+		if isR {
+			return at(2) == 1, true
+		}
+		return isD, true
+	case "update":
+		_, toR := w.SpecR[at(2)]
+		switch {
+		case !isR:
+			return false, true
+		case at(1) == at(2):
+			return true, true
+		case ctx == "pre" || toR || ctx == "mid":
+			return false, true
+		}
+		return false, false
+	}
+	return false, false
 }
 
 // ApplySpec applies the property's pin-model transition of a SUCCESSFUL mutation to the spec maps.
@@ -393,7 +485,7 @@ func (w *World) ApplySpec(f []string) {
 // ---------------------------------------------------------------- canonical rendering of writes / raw keys
 
 func (w *World) idOrd(id string) string {
-	if o, ok := w.ids[id]; ok {
+	if o, ok := w.IDs.m[id]; ok {
 		return strconv.Itoa(o)
 	}
 	return "?" + id
@@ -675,6 +767,7 @@ type Dump struct {
 	Lists    [4]string // dk0 dk1 rk0 rk1
 	Dangling bool
 	Roots    []int // recursive roots per RecursiveKeys
+	Light    bool
 }
 
 func (w *World) cidTok(c cid.Cid) string {
@@ -827,6 +920,42 @@ func (w *World) listTok(rs RawState, ch <-chan ipfspin.StreamedPin, detailed boo
 	return strings.Join(out, ",")
 }
 
+// QueryLight runs IsPinned for every pool CID, CheckIfPinned, CheckIfPinnedWithType(Any, names) and
+// the two detailed listings (used for the many crash images of C23).
+func (w *World) QueryLight() *Dump {
+	ctx := context.Background()
+	rs, _ := w.Raw(w.Store.Snapshot())
+	d := &Dump{T: map[int][]string{}, K: map[[2]int]string{}, Light: true}
+	for c := range rs.R {
+		d.Roots = append(d.Roots, c)
+	}
+	sort.Ints(d.Roots)
+	d.Dangling = w.Dangling(d.Roots)
+	for i := 0; i < w.N; i++ {
+		r, ok, err := w.P.IsPinned(ctx, w.Cids[i])
+		d.IP = append(d.IP, w.reasonTok(r, ok, err))
+	}
+	need := false
+	for i := 0; i < w.N; i++ {
+		_, r := rs.R[i]
+		_, dd := rs.D[i]
+		if !r && !dd {
+			need = true
+		}
+	}
+	res, err := w.P.CheckIfPinned(ctx, w.Cids...)
+	d.CK = w.batchTok(rs, false, res, err, w.N)
+	res, err = w.P.CheckIfPinnedWithType(ctx, ipfspin.Any, true, w.Cids...)
+	d.K[[2]int{5, 1}] = w.batchTok(rs, true, res, err, w.N)
+	if d.Dangling && need {
+		d.CK = w.danglingTok(d.CK)
+		d.K[[2]int{5, 1}] = w.danglingTok(d.K[[2]int{5, 1}])
+	}
+	d.Lists[1] = w.listTok(rs, w.P.DirectKeys(ctx, true), true, ipfspin.Direct)
+	d.Lists[3] = w.listTok(rs, w.P.RecursiveKeys(ctx, true), true, ipfspin.Recursive)
+	return d
+}
+
 // Query runs every query API for every pool CID / mode and returns the dump.
 func (w *World) Query() *Dump {
 	ctx := context.Background()
@@ -897,6 +1026,9 @@ func (w *World) danglingTok(tok string) string {
 }
 
 func (d *Dump) Line() string {
+	if d.Light {
+		return "ip=" + strings.Join(d.IP, ",") + " ck=" + d.CK + " k51=" + d.K[[2]int{5, 1}] + " dk1=" + d.Lists[1] + " rk1=" + d.Lists[3]
+	}
 	var sb strings.Builder
 	sb.WriteString("ip=" + strings.Join(d.IP, ","))
 	for _, m := range QueryModes {
@@ -1109,7 +1241,7 @@ func (r *Recovered) Line() string { return "rb=" + r.Rebuild + " raw=" + r.RawSt
 // Reopen opens a second real pinner on a copy of snap with ws applied, dumps it and closes it;
 // the live pinner is untouched.
 func (w *World) Reopen(snap map[string][]byte, ws []Write) *Recovered {
-	st := FromSnapshot(snap, ws)
+	st := FromSnapshot(snap, ws, w.IDs)
 	p, err := dspinner.New(context.Background(), st, w.dserv)
 	if err != nil {
 		panic("dspinner.New on crash image: " + err.Error())
@@ -1130,11 +1262,11 @@ func (w *World) Reopen(snap map[string][]byte, ws []Write) *Recovered {
 	defer func() { w.P, w.Store = liveP, liveS; p.Close() }()
 	rec := &Recovered{Rebuild: "[" + strings.Join(cs, ";") + "]"}
 	rec.Raw, rec.RawStr = w.Raw(st.Snapshot())
-	rec.D = w.Query()
+	rec.D = w.QueryLight()
 	return rec
 }
 
 // CrashTo makes the crash image the live state (the history continues on the recovered pinner).
 func (w *World) CrashTo(snap map[string][]byte, ws []Write) {
-	w.Open(FromSnapshot(snap, ws))
+	w.Open(FromSnapshot(snap, ws, w.IDs))
 }
